@@ -1892,5 +1892,19 @@ ec_biscalar_mul_bounded(ec_point_t *res,
                         const ec_basis_t *PQ,
                         int f)
 {
-    xDBLMUL_bounded(res, &PQ->P, scalarP, &PQ->Q, scalarQ, &PQ->PmQ, curve, f);
+    // xDBLMUL_bounded recodes k - 1 for an even scalar k, so k = 0 wraps to 2^(RADIX*NWORDS_ORDER) - 1, whose high
+    // digits the bounded main loop skips (wrong point). P and Q have order dividing 2^f here, so a zero scalar is
+    // replaced by the equivalent scalar 2^f (constant time).
+    digit_t k[NWORDS_ORDER], l[NWORDS_ORDER], twof[NWORDS_ORDER] = { 0 };
+    digit_t acck = 0, accl = 0;
+    twof[f / RADIX] = (digit_t)1 << (f % RADIX);
+    for (int i = 0; i < NWORDS_ORDER; i++) {
+        k[i] = scalarP[i];
+        l[i] = scalarQ[i];
+        acck |= k[i];
+        accl |= l[i];
+    }
+    select_ct(k, k, twof, 0 - (digit_t)is_digit_zero_ct(acck), NWORDS_ORDER);
+    select_ct(l, l, twof, 0 - (digit_t)is_digit_zero_ct(accl), NWORDS_ORDER);
+    xDBLMUL_bounded(res, &PQ->P, k, &PQ->Q, l, &PQ->PmQ, curve, f);
 }
